@@ -97,7 +97,7 @@ CLAIMED.update({
 
 CLAIMED.update({
     "C19": ("Coq proof (accounting invariant of the recovery ladder - progress made + time still to integrate = requested span - by induction over levels and sub-steps, for every fault script and every tout schedule ending at the remaining span) + correspondence of the extracted model with the rendered dense / sparse naunet.cpp compiled against a scripted mock CVODE, and of the Odeint budget with the rendered Odeint sources against a Boost stand-in + structural oracle",
-            "Theorems in Props/C19.v: for every script of integrator outcomes obeying CVODE's contract, every dt, y0 and every sub-step schedule whose last sub-step of each level is the whole remaining span, a successful return of Solve means the state advanced over exactly dt (nothing skipped, nothing integrated twice across levels and restarts); failure <=> the initial state is logged; an unrecoverable flag or a failing re-initialisation is a failure at once; five failed levels are a failure after 6 calls / 5 re-initialisations; the Odeint observer turns more calls than mxsteps into failure. Tied to the generated C++ (which exists only as template text) by compiling the rendered naunet.cpp of both CVODE back-ends and of Odeint and running them on hundreds of fault scripts.",
+            "Theorems in Props/C19.v: for every script of integrator outcomes obeying CVODE's contract, every dt, y0 and every sub-step schedule whose last sub-step of each level is the whole remaining span, a successful return of Solve means the state advanced over exactly dt (nothing skipped, nothing integrated twice across levels and restarts); failure <=> the initial state is logged; an unrecoverable flag or a failing re-initialisation is a failure at once; five failed levels are a failure after 6 calls / 5 re-initialisations; the Odeint observer turns more calls than mxsteps into failure. Tied to the generated C++ (which exists only as template text) by compiling the rendered naunet.cpp of both CVODE back-ends and of Odeint and running them on hundreds of fault scripts; the cuSPARSE variant of Solve is compiled for the host against a CUDA stand-in header and run on the same scripts (its disregard of the CVode flag is a recorded finding, stated by cusparse_refuted).",
             "CVODE's contract, the mock integrators (which own their state like CVODE: CVodeInit/CVodeReInit copy in, CVode copies out) and the SUNDIALS/Boost stand-in headers are modelled API (trusted for channel C); the value logged as the initial condition is compared with the state Solve was called with; pow(10, log10(dt)...) is exact only up to double rounding (final state compared to 1e-9); CUDA cannot be compiled here: the cuSPARSE branch is a known finding established from the rendered text, as is the Odeint PyWrapSolve that drops the flag.",
             "7 C19"),
 })
